@@ -76,6 +76,7 @@ class SendUdp(VU):
         lcls.native_attrs["create_datagram_endpoint"] = Builtin("create_datagram_endpoint", self.create_endpoint)
         lcls.native_attrs["time"] = Builtin("time", lambda i, a, k: self.now)      # virtual clock
         self.now = ctx.fresh_int("loop_time")
+        self.now0 = self.now
         self.loop = Obj(lcls)
         am = rt.native_modules["asyncio"]
         am["get_running_loop"] = Builtin("get_running_loop", lambda i, a, k: self.loop)
@@ -171,6 +172,11 @@ class SendUdp(VU):
         frame.locals.pop("protocol", None)
         self.attempts = ctx.fresh_int("attempts_so_far")
         self.transports, self.protocols, self.outcome_log, self.timeouts_waited = [], [], [], 0
+        # virtual time that has passed: one timeout per earlier attempt (a product of two unknowns; the consequences
+        # below are what the obligations need)
+        elapsed = ctx.fresh_int("elapsed")
+        ctx.assume(And(elapsed >= 0, Implies(self.attempts >= 1, elapsed >= self.timeout), Implies(self.attempts.eq(0), elapsed.eq(0))))
+        self.now = lift_int(zint(self.now0) + zint(elapsed))
 
     def variant(self, interp, frame):
         return frame.locals.get("retries")
